@@ -43,7 +43,7 @@ META = {
 
 REPO = core.REPO
 # reduced case counts for the mutation sanity runs (None: the tier's counts)
-N_OVERRIDE_FV = N_OVERRIDE_HIST = N_OVERRIDE_OV = None
+N_OVERRIDE_FV = N_OVERRIDE_HIST = N_OVERRIDE_OV = N_OVERRIDE_FV_OPS = None
 
 
 def esc(s):
@@ -196,6 +196,126 @@ def part_a(ck, exe_model):
     ck.log("part A: %d programs parsed (%s), %d record literals, %d fields, %d with dependencies" % (
         len(idx), ck.stats.get("fv_kind"), nrec, nfield, ndeps))
     return [(reqs[i], impl[i]) for i in idx[:2]]
+
+
+def dep_triples(deps, labels):
+    """the dependency tables of one c07fv / model answer read back by name: the sorted multiset of
+    (field names of the record literal, field, dependency)"""
+    names = labels.split(",") if labels else []
+
+    def nm(i):
+        return "?" if i == "?" else names[int(i)] if i.isdigit() and int(i) < len(names) else "#" + i
+    out = []
+    for rec in [x for x in deps.split(";") if x]:
+        m = re.match(r"s\[(.*)\]d\[(.*)\]$", rec)
+        if not m:
+            out.append(("?", rec, "?"))
+            continue
+        stat = [e.split(":") for e in m.group(1).split(" ") if e]
+        key = tuple(sorted(nm(k) for k, _ in stat))
+        for k, d in stat:
+            out += [(key, nm(k), nm(x)) for x in d.split(",") if x]
+        for d in (m.group(2).split(" ") if m.group(2) else []):
+            out += [(key, "<dynamically named>", nm(x)) for x in d.split(",") if x]
+    return sorted(out)
+
+
+def multiset_diff(a, b):
+    a, b = list(a), list(b)
+    for x in list(a):
+        if x in b:
+            a.remove(x)
+            b.remove(x)
+    return a, b
+
+
+def part_a_operands(ck, exe_model, n, focus=None, seed_salt=704):
+    """Part A on programs that can also be EVALUATED: the operand records of generated override
+    cases.  (1) model vs Rust dependency tables as for every other program; (2) the tables do not change
+    when every local binder (let, fun, pattern variable) is renamed apart - as written, binders are
+    named like the fields; (3) DESIGN 1.4: for every field whose table differs, the override history
+    that exposes it is synthesised (override exactly the sibling whose dependency differs, read every
+    field, compare with the substituted record with binders renamed apart) and handed to the direct
+    oracle, which reports the concrete violation."""
+    rng = core.SplitMix64(ck.seed * 1000003 + seed_salt)
+    cases = [g.gen_override(rng.fork(), focus=focus) for _ in range(n)]
+    reqs, where = [], []
+    for ci, c in enumerate(cases):
+        for oi, nm in enumerate(c["names"]):
+            reqs.append(esc(c["progs"]["alone:" + nm]))
+            where.append((ci, oi, "written"))
+            reqs.append(esc(c["renamed_operands"][nm]))
+            where.append((ci, oi, "renamed"))
+    rc, impl, err = core.run_sharded(core.harness_bin("c07fv"), [], reqs)
+    if rc:
+        ck.obligation("correspondence-run:c07fv (operands)", "internal", False, "rc=%s %s" % (rc, err[-800:]))
+    ok_idx = [i for i, l in enumerate(impl) if l.startswith("OK\t") and where[i][2] == "written"]
+    rc, mod, err = core.run_sharded(exe_model, [], ["fv " + impl[i].split("\t")[1] for i in ok_idx])
+    if rc:
+        ck.obligation("correspondence-run:model-fv (operands)", "internal", False, "rc=%s %s" % (rc, err[-800:]))
+    model = dict(zip(ok_idx, mod))
+    extra, bad_model, bad_alpha, nops = [], 0, 0, 0
+    known_names = set(g.L0) | set(g.L1) | set(g.DYN) | {"w", "u0"}
+    # second look at the operands whose table changes under renaming: with only the pattern variables of
+    # guarded match arms renamed apart (if that alone gives the table of the fully renamed record, the
+    # difference belongs to the class match-guard-scope)
+    alpha = [i for i in range(0, len(reqs), 2) if impl[i].startswith("OK\t") and impl[i + 1].startswith("OK\t")
+             and dep_triples(impl[i].split("\t")[2], impl[i].split("\t")[4]) != dep_triples(impl[i + 1].split("\t")[2], impl[i + 1].split("\t")[4])]
+    rc, gimpl, err = core.run_sharded(core.harness_bin("c07fv"), [], [esc(cases[where[i][0]]["guards_renamed_operands"][cases[where[i][0]]["names"][where[i][1]]]) for i in alpha]) if alpha else (0, [], "")
+    guards_only = {}
+    for i, l in zip(alpha, gimpl):
+        pl = l.split("\t")
+        guards_only[i] = l.startswith("OK\t") and dep_triples(pl[2], pl[4]) == dep_triples(impl[i + 1].split("\t")[2], impl[i + 1].split("\t")[4])
+    for i in range(0, len(reqs), 2):
+        ci, oi, _ = where[i]
+        lw, lr = impl[i], impl[i + 1]
+        if not (lw.startswith("OK\t") and lr.startswith("OK\t")):
+            ck.obligation("correspondence:c07fv-dump (operands)", "correspondence", False,
+                          "a generated operand record is not parsed / printed: %s | %s\n%s" % (lw[:200], lr[:200], reqs[i][:600]))
+            continue
+        nops += 1
+        pw, pr = lw.split("\t"), lr.split("\t")
+        tw = dep_triples(pw[2], pw[4] if len(pw) > 4 else "")
+        tm = dep_triples(model.get(i, ""), pw[4] if len(pw) > 4 else "")
+        tr = dep_triples(pr[2], pr[4] if len(pr) > 4 else "")
+        ck.case(key=reqs[i], nontrivial=bool(tw))
+        suspects, guard_class = [], False
+        if tw != tm:
+            bad_model += 1
+            only_rust, only_model = multiset_diff(tw, tm)
+            suspects += only_rust + only_model
+            ck.obligation("correspondence:free_vars-model-vs-rust", "correspondence", False,
+                          "operand record %s\nonly in the Rust table  (record, field, dependency): %s\nonly in the model table: %s" % (
+                              reqs[i][:900], only_rust[:6], only_model[:6]))
+            ck.coverage.setdefault("fv_disagreements", []).append({"request": reqs[i][:2000], "rust": pw[2][:1000], "model": model.get(i, "")[:1000]})
+        if tw != tr:
+            only_w, only_r = multiset_diff(tw, tr)
+            suspects += only_w + only_r
+            if guards_only.get(i) and tw == tm:
+                guard_class = True
+                ck.count("dependency_tables_changed_by_the_variables_of_guarded_match_arms")
+            else:
+                bad_alpha += 1
+                ck.obligation("correspondence:free_vars-dependency-tables-invariant-under-renaming-binders-apart", "correspondence", False,
+                              "operand record as written %s\nwith binders renamed apart %s\nonly as written (record, field, dependency): %s\nonly renamed: %s" % (
+                                  reqs[i][:700], reqs[i + 1][:700], only_w[:6], only_r[:6]))
+        first = None
+        for x in sorted(set(t[2] for t in suspects if t[2] in known_names)):
+            if len(extra) < 60:
+                sc = g.synth_override(cases[ci], oi, x)
+                if sc:
+                    sc["because"] = {"operand": reqs[i], "differing (record, field, dependency)": [list(map(str, t)) for t in suspects[:8]]}
+                    extra.append(sc)
+                    first = first or sc
+        if guard_class:
+            # the table itself is evidence of the class (the synthesised history goes to the direct oracle as well)
+            ck.violation(GUARD_KEY, GUARD_TEXT, {"operand_as_written": reqs[i], "operand_with_binders_renamed_apart": reqs[i + 1],
+                                                 "dependency_tables_differ_in (record, field, dependency)": [list(map(str, t)) for t in suspects[:8]],
+                                                 "case": first["progs"] if first else None, "how_to_replay": "./verif check C07 --replay <this file>"})
+    ck.coverage["fv_operand_records"] = ck.coverage.get("fv_operand_records", 0) + nops
+    ck.log("part A (operands): %d evaluable operand records as written and with binders renamed apart; model differs on %d, renaming changes the table of %d; %d override histories synthesised" % (
+        nops, bad_model, bad_alpha, len(extra)))
+    return extra, nops, bad_model + bad_alpha
 
 
 # --------------------------------------------------------------------------- part B
@@ -469,7 +589,13 @@ def run_nk(reqs, batch=24000):
     return rc, out, err
 
 
-def oracles(ck):
+GUARD_KEY = "match-guard-scope"
+GUARD_TEXT = ("the pattern variables of a guarded match arm stay in scope in the following arms (pattern/compile.rs puts the failure "
+              "continuation inside the let that binds them): a field defined by such a match reads the pattern variable where it names a "
+              "sibling field, and does not follow the sibling: `({b | default = 5, a = 1 |> match { b if b > 3 => 0, _ => b }} & {b = 7}).a` gives 1")
+
+
+def oracles(ck, extra_cases=()):
     rng = core.SplitMix64(ck.seed * 1000003 + 703)
     n = N_OVERRIDE_OV or (800 if ck.tier == "quick" else 25000)
     cases = []
@@ -479,10 +605,12 @@ def oracles(ck):
     for line in corpus_lines("overrides.case"):
         o = json.loads(line)
         cases.append({"shape": "corpus", "nops": 1, "features": ["corpus"], "progs": {"merged": o["merged"], "subst": o["subst"]},
-                      "lets": None, "paths": o.get("paths")})
+                      "lets": None, "paths": o.get("paths"), "variants": o.get("variants")})
+    cases += list(extra_cases)
     ncorpus = len(cases)
     for _ in range(n):
         cases.append(g.gen_override(rng.fork()))
+    mism = []           # differences merged / substituted, classified in phase 3
     # ---- phase 1
     reqs, where = [], []
     for ci, c in enumerate(cases):
@@ -523,12 +651,19 @@ def oracles(ck):
                 # everything exports: the values must be equal
                 if m == u and only_dynamic_fields_differ(m, s):
                     ck.count("dynamic_field_stale_cases")
-                    ck.violation(DYN_KEY, DYN_TEXT, {"case": c["progs"], "outcomes": r, "how_to_replay": "./verif check C07 --replay <this file>"})
+                    mism.append({"ci": ci, "path": None, "m": m, "s": s, "key": DYN_KEY, "text": DYN_TEXT,
+                                 "obj": {"case": c["progs"], "outcomes": r, "how_to_replay": "./verif check C07 --replay <this file>"}})
                     continue
-                key = "oracle:subst" if m != s else "oracle:depsunknown"
-                ck.violation(key + ":" + c["shape"],
-                             "R & P1 & ... differs from %s" % ("the record with the winning definitions substituted" if m != s else "the same program with all field dependencies unknown (H4)"),
-                             {"case": c["progs"], "outcomes": r, "shape": c["shape"], "how_to_replay": "./verif check C07 --replay <this file>"})
+                obj = {"case": c["progs"], "outcomes": r, "shape": c["shape"], "how_to_replay": "./verif check C07 --replay <this file>"}
+                if c.get("because"):
+                    obj["synthesised_because_the_dependency_tables_differ"] = c["because"]
+                    obj["overridden_field"] = c.get("overridden")
+                if m != s:
+                    mism.append({"ci": ci, "path": None, "m": m, "s": s, "key": "oracle:subst:" + c["shape"], "obj": obj,
+                                 "text": "R & P1 & ... differs from the record with the winning definitions substituted: %s vs %s" % (m[:120], s[:120])})
+                if m != u:
+                    ck.violation("oracle:depsunknown:" + c["shape"],
+                                 "R & P1 & ... differs from the same program with all field dependencies unknown (H4)", obj)
                 continue
         if not (m.startswith("OK") and s.startswith("OK") and u.startswith("OK")) and c.get("paths"):
             # some field fails: compare field by field (each leaf path on its own)
@@ -586,19 +721,52 @@ def oracles(ck):
             if leaf_equiv(m, s):
                 ck.count("oracle_leaf_error_class_differs_only")
                 continue
-            if p.split(".")[0] in g.DYN and m == u:
+            if p.split(".")[-1] in g.DYN and m == u:
                 ck.count("dynamic_field_stale_cases")
-                ck.violation(DYN_KEY, DYN_TEXT, {"case": c["progs"], "field": p, "outcomes": d, "how_to_replay": "./verif check C07 --replay <this file>"})
+                mism.append({"ci": ci, "path": p, "m": m, "s": s, "key": DYN_KEY, "text": DYN_TEXT,
+                             "obj": {"case": c["progs"], "field": p, "outcomes": d, "how_to_replay": "./verif check C07 --replay <this file>"}})
                 continue
-            ck.violation("oracle:subst-leaf:" + c["shape"],
-                         "field %s: R & P1 & ... gives %s, the substituted record gives %s" % (p, (m or "")[:80], (s or "")[:80]),
-                         {"case": c["progs"], "field": p, "outcomes": d, "how_to_replay": "./verif check C07 --replay <this file>"})
+            obj = {"case": c["progs"], "field": p, "outcomes": d, "how_to_replay": "./verif check C07 --replay <this file>"}
+            if c.get("because"):
+                obj["synthesised_because_the_dependency_tables_differ"] = c["because"]
+                obj["overridden_field"] = c.get("overridden")
+            mism.append({"ci": ci, "path": p, "m": m, "s": s, "key": "oracle:subst-leaf:" + c["shape"], "obj": obj,
+                         "text": "field %s: R & P1 & ... gives %s, the substituted record gives %s" % (p, (m or "")[:80], (s or "")[:80])})
         if m != u and not (diverges(m or "") and diverges(u or "")):
             ck.violation("oracle:depsunknown-leaf:" + c["shape"],
                          "field %s: %s normally, %s with all dependencies unknown" % (p, (m or "")[:80], (u or "")[:80]),
                          {"case": c["progs"], "field": p, "outcomes": d, "how_to_replay": "./verif check C07 --replay <this file>"})
+    # ---- phase 3: what kind of difference?  The substituted record once more with its binders as written
+    # (no merge involved: if it reproduces the merged outcome, a binder captured a field name) and with
+    # only the pattern variables of guarded match arms renamed apart
+    reqs3, where3 = [], []
+    for mi, x in enumerate(mism):
+        for vn, prog in (cases[x["ci"]].get("variants") or {}).items():
+            reqs3.append(("field=%s" % x["path"] if x["path"] else "") + "\t" + esc(prog))
+            where3.append((mi, vn))
+    rc, out3, err = run_nk(reqs3) if reqs3 else (0, [], "")
+    if rc:
+        ck.obligation("oracle-run:phase3", "internal", False, "rc=%s %s" % (rc, err[-800:]))
+    var = {}
+    for (mi, vn), o in zip(where3, out3):
+        var.setdefault(mi, {})[vn] = o
+    same = lambda a, b: a is not None and b is not None and (a == b or (not a.startswith("OK") and leaf_equiv(a, b)))
+    for mi, x in enumerate(mism):
+        v = var.get(mi, {})
+        sw, sg = v.get("subst-as-written"), v.get("subst-guards-renamed")
+        x["obj"]["substituted_with_binders_as_written"] = sw
+        x["obj"]["substituted_with_guarded_arm_variables_renamed"] = sg
+        if same(x["m"], sw) and same(x["s"], sg) and not same(sw, sg):
+            ck.count("match_guard_scope_cases")
+            ck.violation(GUARD_KEY, GUARD_TEXT, x["obj"])
+        elif same(x["m"], sw) and not same(x["s"], sw):
+            ck.violation("oracle:binder-capture:" + cases[x["ci"]]["shape"],
+                         "a local binder named like a field changes the outcome (no merge involved): the substituted record gives %s as written and %s with its binders renamed apart" % (
+                             (sw or "")[:100], x["s"][:100]), x["obj"])
+        else:
+            ck.violation(x["key"], x["text"], x["obj"])
     ck.coverage["override_corpus"] = ncorpus
-    ck.coverage["override_programs_run_on_impl"] = len(reqs) + len(reqs2)
+    ck.coverage["override_programs_run_on_impl"] = len(reqs) + len(reqs2) + len(reqs3)
     ck.log("oracles: %d override sequences (%d corpus), %d programs; shapes %s; merged outcomes %s" % (
         len(cases), ncorpus, len(reqs) + len(reqs2), ck.stats.get("override_shape"), ck.stats.get("merged_outcome")))
     ck.log("oracles: features %s" % ck.stats.get("override_features"))
@@ -678,8 +846,20 @@ def run(ck):
     if not ok or not exe:
         return
     s1 = part_a(ck, exe)
+    nfv = len(ck.coverage.get("fv_disagreements", []))
+    extra, nops, nbad = part_a_operands(ck, exe, N_OVERRIDE_FV_OPS or (500 if ck.tier == "quick" else 12000))
+    if (nfv or nbad) and not extra or (nfv and not nbad):
+        # DESIGN 1.4 (c): a dependency table is wrong somewhere, but not (yet) on a program that can be
+        # evaluated: a larger budget of the sub-stream around binders that collide with field names
+        ck.log("search: dependency tables differ; focused search on evaluable records")
+        extra2, nops2, nbad2 = part_a_operands(ck, exe, 4 * (N_OVERRIDE_FV_OPS or (500 if ck.tier == "quick" else 12000)), focus=True, seed_salt=705)
+        extra += extra2
+        nbad += nbad2
+    if not nbad:
+        ck.obligation("correspondence:free_vars-model-vs-rust and invariance of the dependency tables under renaming binders apart, on %d evaluable operand records" % nops,
+                      "correspondence", True)
     s2 = part_b(ck, exe)
-    s3 = oracles(ck)
+    s3 = oracles(ck, extra)
     for s in s1:
         ck.sample({"fv_request": s[0][:300], "fv_answer": s[1][:600]})
     for s in s2 + s3:
